@@ -170,7 +170,12 @@ const c10Scribble = `function scribble(o, depth) {
 }
 scribble(_.props, 0);`
 
-const c10Look = `var seen = JSON.stringify(_.props); var log = _.bindings.log || []; log.push(seen);`
+const c10Look = `function canon(o) {
+  if (o === null || typeof o != "object") { return JSON.stringify(o); }
+  if (Array.isArray(o) || typeof o.length == "number") { var a = []; for (var i = 0; i < o.length; i++) { a.push(canon(o[i])); } return "[" + a.join(",") + "]"; }
+  return "{" + Object.keys(o).sort().map(function(k) { return JSON.stringify(k) + ":" + canon(o[k]); }).join(",") + "}";
+}
+var seen = canon(_.props); var log = _.bindings.log || []; log.push(seen);`
 
 func c10Spec(guard, action string) *core.Spec {
 	b := &core.Branch{Pattern: "?m", Target: "act"}
